@@ -112,6 +112,28 @@ def transform(prop, variant, lifter, g, head):
     raise ValueError(variant)
 
 
+def undefined_reads(orig, new, regs):
+    from miasm.expression.expression import get_expr_ids
+    known = set()
+    for blk in orig.blocks.values():
+        for ab in blk:
+            for d, s_ in ab.items():
+                known.update(x.name for x in get_expr_ids(d))
+                known.update(x.name for x in get_expr_ids(s_))
+    known.update(r.name for r in regs.regs_init.values())
+    known.update(r.name for r in regs.regs_init)
+    defined, read = set(), set()
+    for blk in new.blocks.values():
+        for ab in blk:
+            for d, s_ in ab.items():
+                if d.is_id():
+                    defined.add(d.name)
+                else:
+                    read.update(x.name for x in get_expr_ids(d))
+                read.update(x.name for x in get_expr_ids(s_))
+    return read - defined - known
+
+
 def check_program(prop, variant, kind, payload, timeout_s, bug=None):
     import z3
     loc_db, machine, lifter, g, head = build(kind, payload)
@@ -144,6 +166,15 @@ def check_program(prop, variant, kind, payload, timeout_s, bug=None):
     for p in probs:
         out['nob'] += 1
         out['viol'].append(dict(ob='ssa-structure', detail=p, ids={}, inputs={}))
+    # a transformed graph must not read a variable that nothing defines (e.g. an SSA version whose definition was removed):
+    # structural, decided without the solver, replayed by recomputation
+    out['nob'] += 1
+    und = undefined_reads(orig, new, regs)
+    if und:
+        out['viol'].append(dict(ob='no-undefined-variable', detail="the transformed graph reads %s, which is neither a register of "
+                                "the original program nor defined anywhere" % ", ".join(sorted(und)), ids={}, inputs={}))
+    else:
+        out['ndis'] += 1
     out['nob'] += 1 if not probs and variant == 'ssa-unssa' else 0
     out['ndis'] += 1 if not probs and variant == 'ssa-unssa' else 0
     out['orig'] = irprog.dump_graph(orig, 1200)
@@ -206,12 +237,12 @@ def replay(w, prop):
         except Exception as ex:
             return True, "%s on %s raised %s: %s" % (variant, w.get('site'), type(ex).__name__, ex)
         return False, "no exception"
-    if w.get('ob') == 'ssa-structure':
+    if w.get('ob') in ('ssa-structure', 'no-undefined-variable'):
         out = check_program(prop, variant, kind, payload, 30)
         for v in out['viol']:
-            if v['ob'] == 'ssa-structure':
-                return True, "%s: %s" % (variant, v.get('detail'))
-        return False, "SSA form is structurally valid"
+            if v['ob'] == w.get('ob'):
+                return True, "%s: %s\nTRANSFORMED\n%s" % (variant, v.get('detail'), out.get('new', ''))
+        return False, "the transformed graph is structurally valid"
     # concrete replay with the independent evaluator from the model's initial state
     loc_db, machine, lifter, g, head = build(kind, payload)
     orig = irprog.copy_graph(g)
